@@ -172,6 +172,25 @@ func optNanos(t *time.Time) string {
 	return "(Some " + bigZ(unixNanos(*t)) + ")"
 }
 
+// instants shortly after a zone transition that skipped local midnight (the day has no 00:00), at most [max] per zone
+func midnightGaps(loc *time.Location, max int) []time.Time {
+	var out []time.Time
+	t := time.Date(1900, 1, 1, 0, 0, 0, 0, time.UTC).In(loc)
+	limit := time.Date(2040, 1, 1, 0, 0, 0, 0, time.UTC)
+	for i := 0; i < 2000 && len(out) < max; i++ {
+		_, e := t.ZoneBounds()
+		if e.IsZero() || e.After(limit) {
+			break
+		}
+		after := e.In(loc)
+		if mid := time.Date(after.Year(), after.Month(), after.Day(), 0, 0, 0, 0, loc); mid.Hour() != 0 || mid.Day() != after.Day() {
+			out = append(out, after.Add(30*time.Minute))
+		}
+		t = e
+	}
+	return out
+}
+
 // ---- generators -------------------------------------------------------------------------------------------------
 
 func daysIn(y, m int) int { return time.Date(y, time.Month(m)+1, 0, 0, 0, 0, 0, time.UTC).Day() }
@@ -320,14 +339,36 @@ func runDates(o *hx.Opts, res *hx.Result, r *hx.Rand) {
 	// --- datetimes: Render / Format(env) and back
 	n := o.Count(700, 30000)
 	gr := r.Fork("instants")
-	for i := 0; i < n; i++ {
-		e := genEnv(gr, zones, true)
-		e.activate()
-		vloc := e.loc
-		if gr.Chance(1, 5) {
-			vloc = hx.Pick(gr, zones)
+	// corpus: days without a local midnight (fea80c6), in every date format
+	type dtCase struct {
+		e *denv
+		t time.Time
+	}
+	var corpus []dtCase
+	for _, z := range zones {
+		for k, g := range midnightGaps(z, 3) {
+			e := genEnv(gr, []*time.Location{z}, false)
+			e.df = dateFormats[k%len(dateFormats)]
+			e.env = envs.NewBuilder().WithTimezone(e.loc).WithDateFormat(e.df).WithTimeFormat(e.tf).Build()
+			corpus = append(corpus, dtCase{e, g})
 		}
-		t, kind := genInstant(gr, vloc, e.loc)
+	}
+	for i := 0; i < len(corpus)+n; i++ {
+		var e *denv
+		var vloc *time.Location
+		var t time.Time
+		kind := "midnight-gap-day"
+		if i < len(corpus) {
+			e, vloc, t = corpus[i].e, corpus[i].e.loc, corpus[i].t
+		} else {
+			e = genEnv(gr, zones, true)
+			vloc = e.loc
+			if gr.Chance(1, 5) {
+				vloc = hx.Pick(gr, zones)
+			}
+			t, kind = genInstant(gr, vloc, e.loc)
+		}
+		e.activate()
 		t = t.In(vloc)
 		x := types.NewXDateTime(t)
 		_, voff := t.Zone()
@@ -476,10 +517,9 @@ func runDates(o *hx.Opts, res *hx.Result, r *hx.Rand) {
 
 	// --- dates and times of day
 	dr := r.Fork("dates")
-	nd := o.Count(200, 10000)
-	for i := 0; i < nd; i++ {
+	nd := o.Count(400, 15000)
+	for i := 0; i < len(corpus)+nd; i++ {
 		e := genEnv(dr, zones, true)
-		e.activate()
 		y := dr.Range(1, 9999)
 		if dr.Chance(1, 3) {
 			y = hx.Pick(dr, edgeYears)
@@ -489,6 +529,11 @@ func runDates(o *hx.Opts, res *hx.Result, r *hx.Rand) {
 		if dr.Chance(1, 4) {
 			d = daysIn(y, m)
 		}
+		if i < len(corpus) { // a day without local midnight in the environment's zone
+			e = corpus[i].e
+			y, m, d = corpus[i].t.Year(), int(corpus[i].t.Month()), corpus[i].t.Day()
+		}
+		e.activate()
 		xd := types.NewXDate(dates.NewDate(y, m, d))
 		input := map[string]any{"kind": "date", "date": fmt.Sprintf("%04d-%02d-%02d", y, m, d), "env": e.describe()}
 		res.Eval(fmt.Sprintf("date:%d-%d-%d:%s", y, m, d, e.df), true)
